@@ -13,6 +13,7 @@ var Torture = []string{
 	"abc<", "abc<?", "a<b<?php echo 1;", "<?php \r", "<?php \"a\r", "<?\"$", "<?`'{", "<?}", "<?php }", "<?php {", "<?php {}}", "<?<<<A\n ", "<?php <<<A\nA;", "<?php <<<A\nA;\n", "<?php <<<A\n  A;", "<?php <<<A\nA=",
 	"<?php <<<A\n$$a\nA;", "<?php <<<A\n$", "<?php <<<A\n$a$\nA;\n", "<?php <<<A\n{$a}\nA;\n", "<?php <<<A\n${a}\nA;\n", "<?php <<<A\n$a[0] $a[b] $a[$c] $a->b\nA;\n", "<?php <<<'A'\n$a {$b}\nA;\n", "<?php <<<\"A\"\nx\nA;\n",
 	"<?php <<<A\nx\n  A;\n", "<?php <<<A\n  x\n  A . 'y';\n", "<?php foo(<<<A\nx\nA, 1);\n", "<?php <<<A\nAB\nA;\n", "<?php <<<A\r\nx\r\nA;\r\n", "<?php <<<A\rx\rA;\r", "<?php b<<<A\nx\nA;\n", "<?php <<< A\nx\nA;\n", "<?php <<<A\n\nA;\n",
+	"<?xml ?>x", "<?xml version=\"1.0\"?>\n<?php echo 1;", "<?XML\t?>\n<p><?= $a ?></p>", "<? echo 1 ?>", "<?\necho 1;", "a<?b?>c", "<?xmlx ?>", "<?x ml ?>", "<?php echo '<?xml version=\"1.0\"?>'; ?>\n<?xml ?>",
 	"#!/bin/php\n<?php echo 1;", "#!/bin/php\n", "#!/bin/php", "#!/bin/php\r\n<?php echo 1;", "#!/bin/php\nabc<?php echo 1;", "#!x\n<?= 1;",
 	"<?php 1and 2;", "<?php 1or 2;", "<?php 1xor 2;", "<?php $a=1instanceof B;", "<?php if(1)echo 1;else echo 2;", "<?php echo\"a\";", "<?php echo-1;", "<?php $a=+1;$b=-1;",
 	"<?php \"$a\\\\\\\"b\";", "<?php `a\\\\\\`b $c`;", "<?php \"$a\\\\\";", "<?php \"\\$a\";", "<?php \"\\\\$a\";", "<?php \"\\{$a}\";", "<?php \"{\\$a}\";", "<?php \"$a[0]\";", "<?php \"$a[-1]\";", "<?php \"$a[b]\";", "<?php \"$a[$b]\";", "<?php \"$a[0x1A]\";", "<?php \"$a[0b11]\";", "<?php \"$a[1_0]\";", "<?php \"$a[-0x1A] $b[-0b11] $c[-99999999999999999999] $d[-08] t\";", "<?php <<<A\n$a[-0x1F] $a[-1]\nA;\n",
